@@ -280,7 +280,8 @@ func nestedStream(cfg *Config) *hx.Stats {
 	st.TraceFiles = append(st.TraceFiles, w.Path)
 	nProg := int(16 * cfg.Scale)
 	seen := map[string]bool{}
-	for p := 0; p < nProg; p++ {
+	nestedExotic(st, cfg, w) // scripted, model-free: container keys, oversized wrappers (nestedx.go)
+	for p := 0; p < nProg && st.HarnessErr == ""; p++ {
 		T := []uint32{256, 512, 1024, 256}[p%4]
 		e := &nestEnv{w: w, st: st, cfg: cfg, rng: rng, T: T, prog: p, ext: true, coll: p%3 == 2}
 		runNestedProgram(e, 150+rng.Intn(250))
